@@ -42,11 +42,11 @@ def main():
                 for f in c["files"]:
                     dd = os.path.join(root, *f["path"]["dirs"][1:])
                     os.makedirs(dd, exist_ok=True)
-                    with open(os.path.join(dd, f["path"]["file"]), "w") as fh:
+                    with open(os.path.join(dd, f["path"]["file"]), "w", encoding="utf-8") as fh:
                         fh.write(absyn.render(c07.with_inc_strings(f["s"], root), rng))
                 text = absyn.render(c07.with_inc_strings(c["s"], root), rng)
                 path = os.path.join(root, "w", "main.xbb")
-                with open(path, "w") as fh:
+                with open(path, "w", encoding="utf-8") as fh:
                     fh.write(text)
                 try:
                     real = ("ok", blackbird.load(path))
